@@ -141,9 +141,10 @@ def run_pool(prop_name, mem, chunk_iter, merge, total):
         p = ctx.Process(target=_worker_main, args=(child, prop_name, mem), daemon=True)
         p.start()
         child.close()
-        workers[parent] = [p, None]
+        workers[parent] = [p, None, 0.0]
         return parent
 
+    hard_timeout = getattr(importlib.import_module("pdpmc.props." + prop_name), "CASE_TIMEOUT", 120) + 10
     pending = collections.deque()  # tasks to retry (single cases)
     it = iter(chunk_iter)
     exhausted = False
@@ -168,12 +169,19 @@ def run_pool(prop_name, mem, chunk_iter, merge, total):
                 break
             c = idle.pop()
             workers[c][1] = t
+            workers[c][2:] = [time.time()]
             c.send(t)
-        busy = [c for c, (p, t) in workers.items() if t is not None]
+        busy = [c for c, w in workers.items() if w[1] is not None]
         if not busy:
             break
-        for c in mpwait(busy, timeout=5):
-            p, t = workers[c]
+        ready = mpwait(busy, timeout=2)
+        now = time.time()
+        for c in busy:
+            # hard deadline: a C-level computation cannot be interrupted by the in-worker alarm
+            if c not in ready and now - workers[c][2] > hard_timeout * (1 if len(workers[c][1][1]) == 1 else 3):
+                workers[c][0].kill()
+        for c in ready:
+            p, t = workers[c][0], workers[c][1]
             try:
                 start, packed = c.recv()
             except (EOFError, OSError):
@@ -187,20 +195,25 @@ def run_pool(prop_name, mem, chunk_iter, merge, total):
                 else:
                     r = R()
                     r.index = start
-                    r.ran("worker-died", key=cases[0])
-                    r.violation("worker-died", "the worker process died while running this case (exit code %r)" % p.exitcode, cases[0])
+                    if p.exitcode == -9:
+                        r.ran("hang(wallclock)", key=cases[0])
+                        r.violation("hang(wallclock)", "the case did not finish within %d s and its worker was killed" % hard_timeout, cases[0])
+                    else:
+                        r.ran("worker-died", key=cases[0])
+                        r.violation("worker-died", "the worker process died while running this case (exit code %r)" % p.exitcode, cases[0])
                     merge(start, r.pack())
                 idle.append(spawn())
                 continue
             workers[c][1] = None
             idle.append(c)
             merge(start, packed)
-    for c, (p, t) in workers.items():
+    for c, w in workers.items():
         try:
             c.send(None)
         except OSError:
             pass
-    for c, (p, t) in workers.items():
+    for c, w in workers.items():
+        p = w[0]
         p.join(timeout=2)
         if p.is_alive():
             p.terminate()
